@@ -1,31 +1,77 @@
 (* C17 — Fallback never replaces a success and handles exactly the errors it should.
-   Only statements, `exact` of a lemma from Proof/Fallback.v, and Print Assumptions. *)
+   Only statements, `exact` of a lemma from Proof/Fallback.v, and Print Assumptions.
+   [call st pred inner backup req] is the pure reference function (result, the requests seen by the
+   inner and the backup service, and [fn_log]: everything the layer invokes, in order);
+   [run_ops st pred ops] is the step machine the correspondence driver executes (several overlapping
+   calls through one service value and its clones, hand-polled futures, gated inner / backup
+   services, dropped futures, readiness errors); C17_machine_refines_call links the two. *)
 From TR Require Import Lib.Base Model.Fallback Proof.Fallback.
 
 Theorem C17_ok_passthrough :
   forall (Req Res Err : Type) (st : strategy Req Res Err) pred inner backup req r,
     inner req = inl r ->
     call st pred inner backup req =
-      {| inner_calls := [req]; backup_calls := []; out := inl r |}.
+      {| inner_calls := [req]; backup_calls := []; fn_log := [EInner req]; out := inl r |}.
 Proof. exact @ok_passthrough. Qed.
 Print Assumptions C17_ok_passthrough.
+
+(* a success invokes nothing but the inner service: no predicate, no strategy closure, no backup *)
+Theorem C17_success_invokes_nothing :
+  forall (Req Res Err : Type) (st : strategy Req Res Err) pred inner backup req r,
+    inner req = inl r -> fn_log (call st pred inner backup req) = [EInner req].
+Proof. exact @success_invokes_nothing. Qed.
+Print Assumptions C17_success_invokes_nothing.
+
+(* nothing of the fallback runs before the inner service has been called with the original request *)
+Theorem C17_inner_invoked_first :
+  forall (Req Res Err : Type) (st : strategy Req Res Err) pred inner backup req,
+    exists rest, fn_log (call st pred inner backup req) = EInner req :: rest.
+Proof. exact @inner_invoked_first. Qed.
+Print Assumptions C17_inner_invoked_first.
 
 Theorem C17_predicate_gate :
   forall (Req Res Err : Type) (st : strategy Req Res Err) pred inner backup req e,
     inner req = inr e -> handles pred e = false ->
     call st pred inner backup req =
-      {| inner_calls := [req]; backup_calls := []; out := inr (Inner e) |}.
+      {| inner_calls := [req]; backup_calls := []; fn_log := EInner req :: pred_events pred e;
+         out := inr (Inner e) |}.
 Proof. exact @predicate_gate. Qed.
 Print Assumptions C17_predicate_gate.
+
+(* on an error the predicate is evaluated exactly once, on that error, right after the inner call;
+   a refused error invokes nothing else *)
+Theorem C17_predicate_evaluated_once :
+  forall (Req Res Err : Type) (st : strategy Req Res Err) pred inner backup req e,
+    inner req = inr e ->
+    exists rest, fn_log (call st pred inner backup req) = EInner req :: pred_events pred e ++ rest /\
+                 (forall x, ~ In (EPred x) rest) /\ (forall x, ~ In (EInner x) rest) /\
+                 (handles pred e = false -> rest = []).
+Proof. exact @predicate_evaluated_once. Qed.
+Print Assumptions C17_predicate_evaluated_once.
 
 Theorem C17_strategy_exact :
   forall (Req Res Err : Type) (st : strategy Req Res Err) pred inner backup req e,
     inner req = inr e -> handles pred e = true ->
     call st pred inner backup req =
-      {| inner_calls := [req]; backup_calls := spec_backup st req;
+      {| inner_calls := [req]; backup_calls := spec_backup st req; fn_log := spec_log st pred req e;
          out := spec_out st backup req e |}.
 Proof. exact @strategy_exact. Qed.
 Print Assumptions C17_strategy_exact.
+
+(* the same specification written out strategy by strategy (no auxiliary definition) *)
+Theorem C17_strategy_equations :
+  forall (Req Res Err : Type) (pred : option (Err -> bool)) (inner backup : Req -> Res + Err) req e,
+    inner req = inr e -> handles pred e = true ->
+    (forall v, out (call (SValue v) pred inner backup req) = inl v) /\
+    (forall f, out (call (SValueFn f) pred inner backup req) = inl (f tt)) /\
+    (forall f, out (call (SFromError f) pred inner backup req) = inl (f e)) /\
+    (forall f, out (call (SFromRequestError f) pred inner backup req) = inl (f req e)) /\
+    (forall r, backup req = inl r -> out (call SService pred inner backup req) = inl r) /\
+    (forall be, backup req = inr be ->
+                out (call SService pred inner backup req) = inr (FallbackFailed be)) /\
+    (forall f, out (call (SException f) pred inner backup req) = inr (Inner (f e))).
+Proof. exact @strategy_equations. Qed.
+Print Assumptions C17_strategy_equations.
 
 Theorem C17_inner_called_exactly_once :
   forall (Req Res Err : Type) (st : strategy Req Res Err) pred inner backup req,
@@ -39,3 +85,63 @@ Theorem C17_backup_called_iff :
     (st = SService /\ exists e, inner req = inr e /\ handles pred e = true).
 Proof. exact @backup_called_iff. Qed.
 Print Assumptions C17_backup_called_iff.
+
+(* ======== the step machine run_script executes ======== *)
+
+(* every completed call of the machine returned what [call] specifies for that call's own request
+   and the outcomes delivered to that call, and invoked what [call] logs, in that order —
+   whatever other calls through the same service value and its clones did in between *)
+Theorem C17_machine_refines_call :
+  forall (Req Res Err : Type) (st : strategy Req Res Err) pred ops k c r,
+    nth_error (m_calls (run_ops st pred ops)) k = Some c -> c_phase c = PDone r ->
+    (exists x, c_inner c = Some (of_sum x)) /\
+    forall inner backup,
+      c_inner c = Some (of_sum (inner (c_req c))) ->
+      (forall o, c_backup c = Some o -> o = of_sum (backup (c_req c))) ->
+      r = out (call st pred inner backup (c_req c)) /\
+      c_log c = fn_log (call st pred inner backup (c_req c)).
+Proof. exact @machine_refines_call. Qed.
+Print Assumptions C17_machine_refines_call.
+
+(* in every reachable state, for every call (finished, pending, dropped or panicked): anything
+   beyond the inner call has only been invoked after an inner ERROR was delivered to that call *)
+Theorem C17_fallback_only_after_inner_error :
+  forall (Req Res Err : Type) (st : strategy Req Res Err) pred ops k c,
+    nth_error (m_calls (run_ops st pred ops)) k = Some c ->
+    c_log c = [] \/ c_log c = [EInner (c_req c)] \/
+    exists e rest, c_inner c = Some (OErr e) /\ c_log c = EInner (c_req c) :: rest.
+Proof. exact @machine_fallback_only_after_inner_error. Qed.
+Print Assumptions C17_fallback_only_after_inner_error.
+
+Theorem C17_machine_success_invokes_nothing :
+  forall (Req Res Err : Type) (st : strategy Req Res Err) pred ops k c r,
+    nth_error (m_calls (run_ops st pred ops)) k = Some c -> c_inner c = Some (OOk r) ->
+    c_log c = [] \/ c_log c = [EInner (c_req c)].
+Proof. exact @machine_success_invokes_nothing. Qed.
+Print Assumptions C17_machine_success_invokes_nothing.
+
+(* the global event log of the trace, restricted to call k, is that call's own log *)
+Theorem C17_events_project :
+  forall (Req Res Err : Type) (st : strategy Req Res Err) pred ops k,
+    map snd (filter (fun ke => Nat.eqb (fst ke) k) (m_events (run_ops st pred ops))) =
+    match nth_error (m_calls (run_ops st pred ops)) k with Some c => c_log c | None => [] end.
+Proof. exact @events_project. Qed.
+Print Assumptions C17_events_project.
+
+(* an operation aimed at one call leaves every other call untouched *)
+Theorem C17_calls_independent :
+  forall (Req Res Err : Type) (st : strategy Req Res Err) pred s o k c,
+    nth_error (m_calls s) k = Some c -> target o <> Some k ->
+    nth_error (m_calls (step st pred s o)) k = Some c.
+Proof. exact @calls_independent. Qed.
+Print Assumptions C17_calls_independent.
+
+(* a readiness error of the inner service is reported as Inner(e): no call, no predicate, no strategy
+   (the crate never falls back on it; the property's "inner error" is read as an error of the call) *)
+Theorem C17_readiness_error_not_handled :
+  forall (Req Res Err : Type) (st : strategy Req Res Err) pred s e,
+    m_calls (step st pred s (OpReadyFail e)) = m_calls s /\
+    m_events (step st pred s (OpReadyFail e)) = m_events s /\
+    m_ready (step st pred s (OpReadyFail e)) = m_ready s ++ [Inner e].
+Proof. exact @readiness_error_not_handled. Qed.
+Print Assumptions C17_readiness_error_not_handled.
